@@ -1324,8 +1324,9 @@ func GetProofSubset(proof Proof, hashes []Hash, wants []uint64, numLeaves uint64
 		return nil, Proof{}, err
 	}
 
-	// Match up the targets with their respective hashes.
-	targetHashesWithPos := toHashAndPos(proofTargetsCopy, hashes)
+	// Match up the targets with their respective hashes. The hashes are in the
+	// same order as proof.Targets, not as the sorted copy of the targets.
+	targetHashesWithPos := toHashAndPos(proof.Targets, hashes)
 
 	// calculateHashes provides us with all the intermediate calculated nodes in the tree.
 	// Need to sort the returned positions and hashes as they aren't sorted.
